@@ -26,7 +26,7 @@ class RefError(Exception):
 
 
 class DescRef:
-    __slots__ = ("symbol", "id", "weight", "transitions", "atom", "order", "text", "span")
+    __slots__ = ("symbol", "id", "weight", "transitions", "atom", "order", "text", "span", "written_atom")
 
     def __init__(self, symbol, id_, weight, transitions, atom=None, order=1.0, text="", span=None):
         self.symbol = symbol
@@ -37,6 +37,7 @@ class DescRef:
         self.order = order
         self.text = text
         self.span = span
+        self.written_atom = atom
 
     def plain(self):
         return f"[{self.symbol}{'' if self.id is None else self.id}]"
@@ -100,6 +101,18 @@ class TokenRef:
         mol = Chem.MolFromSmiles(dummy_smiles, params)
         if mol is None:
             raise RefError(f"RDKit rejects {dummy_smiles!r}")
+        # explicit hydrogens written on a heavy atom are part of that atom (RDKit merges them; the fragment the
+        # library hands to RDKit behaves the same way); [H] alone, isotopic H and H on a descriptor stay atoms
+        w = 0
+        for a in mol.GetAtoms():
+            if a.GetAtomicNum() != 0:
+                a.SetIntProp("widx", w)
+                w += 1
+        self.n_written_atoms = w
+        try:
+            mol = Chem.RemoveHs(mol)
+        except Exception as e:  # noqa
+            raise RefError(f"RDKit cannot merge hydrogens of {dummy_smiles!r}: {e}")
         real = [a.GetIdx() for a in mol.GetAtoms() if a.GetAtomicNum() != 0]
         idx_of = {g: i for i, g in enumerate(real)}
         dummies = {}
@@ -115,6 +128,7 @@ class TokenRef:
                 raise RefError(f"descriptor {k} of {text!r} does not bond to exactly one atom")
             b = mol.GetBondBetweenAtoms(a.GetIdx(), nb[0].GetIdx())
             d.atom = idx_of[nb[0].GetIdx()]
+            d.written_atom = nb[0].GetIntProp("widx")
             d.order = BOND_ORDER.get(b.GetBondType(), float(b.GetBondTypeAsDouble()))
         self.descs = descs
         self.mol = mol  # with dummies
@@ -141,7 +155,7 @@ class TokenRef:
             erased = re.sub(r"[-=#:]?\[\d+\*\]", "", erased)
             while "()" in erased:
                 erased = erased.replace("()", "")
-            m2 = Chem.MolFromSmiles(erased, params)
+            m2 = Chem.RemoveHs(Chem.MolFromSmiles(erased, params))
             atoms2 = [(a.GetAtomicNum(), a.GetFormalCharge(), a.GetIsotope(), a.GetIsAromatic()) for a in m2.GetAtoms()]
             bonds2 = sorted((min(b.GetBeginAtomIdx(), b.GetEndAtomIdx()), max(b.GetBeginAtomIdx(), b.GetEndAtomIdx()), BOND_ORDER.get(b.GetBondType(), b.GetBondTypeAsDouble())) for b in m2.GetBonds())
             if atoms2 != self.atoms or bonds2 != self.bonds:
